@@ -222,7 +222,7 @@ def run(facts, tier):
     # ---- C11-6
     reach, _ = facts.reachable([facts.fn("xml_info::attr_value_from_name")["id"]])
     c03.r03_3(facts, res, "C11-6", reach, {})
-    guards.rule(facts, res, "C11-6g", [facts.fns[x] for x in reach if x in facts.fns], want=("G1", "G2", "G3", "G4"), floor=1)
+    guards.rule(facts, res, "C11-6g", [facts.fns[x] for x in reach if x in facts.fns], want=("G1", "G2", "G3", "G4", "G5"), floor=1)
     # ---- C11-7: "is the attribute written?" = no written attribute has the declaration's qualified name
     c11_7(facts, res, e)
     res.functions_analysed = 6
